@@ -17,7 +17,7 @@ from pathlib import Path
 
 REPO = Path(os.environ.get('VERIF_REPO', '/repo'))
 GEN_DIR = REPO / 'autobean_refactor' / 'models' / 'generated'
-OUT = Path('/verif/coq/theories/Generated.v')
+OUT = Path(os.environ.get('VERIF_ROOT', '/verif')) / 'coq' / 'theories' / 'Generated.v'
 
 # default text of separator token classes (checked against the source by harness/c20.py at run time)
 SEP_TEXT = {'Whitespace': ' ', 'Newline': '\n', 'Comma': ','}
